@@ -133,7 +133,8 @@ theorem v1txn_conserves {T} {ms ms' : Mid} {t : Txn1} {pid : Id} {mw : Nat} {R :
     (hnw : (t.sfOuts.map (·.2.1)).sum < u64Limit) (hsfb : sfTot ms < u64Limit)
     (hv : validateTransaction ms t pid mw = .ok ()) (ha : applyTransaction ms t = .ok ms') :
     Inv T ms' ∧ Fresh T ms' R ∧ ms'.base = ms.base ∧
-    Phi ms' + t.fees.sum = Phi ms + t.claims ms ∧ sfTot ms' = sfTot ms ∧ ms.pool ≤ ms'.pool := by
+    Phi ms' + t.fees.sum = Phi ms + t.claims ms ∧ sfTot ms' = sfTot ms ∧ ms.pool ≤ ms'.pool ∧
+    (CsOk ms → CsOk ms' ∧ Psi ms' + 10000 * t.claims ms ≤ Psi ms + (ms'.pool - ms.pool) * sfTot ms) := by
   obtain ⟨hv1, hv2, hv3, hv4⟩ := validateTransaction_ok hv
   obtain ⟨hsc, hbal⟩ := validateSiacoins1_ok hv1
   obtain ⟨hsf, hsfbal⟩ := validateSiafunds1_ok hv2
@@ -219,10 +220,10 @@ theorem v1txn_conserves {T} {ms ms' : Mid} {t : Txn1} {pid : Id} {mw : Nat} {R :
     · intro hm
       obtain ⟨q, hq, he⟩ := inF_scOut _ hm
       exact h0.not_fresh hF q hq he
-  obtain ⟨r3, F3, e3P, e3S, e3p⟩ := loop_sfIns1 t.supp t.sfIns ms2 ms3 _ hc2 r2.inv pSf2 hndsf F2 a3
+  obtain ⟨r3, F3, e3P, e3S, e3p, e3W⟩ := loop_sfIns1 t.supp t.sfIns ms2 ms3 _ hc2 r2.inv pSf2 hndsf F2 a3
   have hc3 : Ctx T ms3.base := by rw [r3.base]; exact hc2
   -- 4. siafund outputs
-  obtain ⟨r4, F4, e4P, e4S, e4p⟩ := loop_sfOuts t.sfOuts ms3 ms4 _ hc3 r3.inv F3 a4
+  obtain ⟨r4, F4, e4P, e4S, e4p, e4W⟩ := loop_sfOuts t.sfOuts ms3 ms4 _ hc3 r3.inv F3 a4
   have hc4 : Ctx T ms4.base := by rw [r4.base]; exact hc3
   -- 5. contract formations
   obtain ⟨r5, F5, e5P, e5S, e5p⟩ := loop_fcs1 t.fcs ms4 ms5 _ hc4 r4.inv (fun x hx => (hfcs x hx).1) F4 a5
@@ -273,40 +274,25 @@ theorem v1txn_conserves {T} {ms ms' : Mid} {t : Txn1} {pid : Id} {mw : Nat} {R :
   obtain ⟨f1, f2, f3, f4, f5, f6, f7, f8⟩ := foundation1_fields ms7 t
   have hb7 : ms7.base = ms.base := by
     rw [r7.base, r6.base, r5.base, r4.base, r3.base, r2.base, r1.base]
-  refine ⟨r7.inv.scalars f1 f2 f3 f4 f5 f6 f7, ?_, f1.trans hb7, ?_, ?_, ?_⟩
-  · exact F7.agree (agree_scalars f1 f2 f3 f4 f5 f6 f7 (fun _ => False)) (fun _ _ h => h)
-  · rw [Phi_scalars f1 f4 f6 f7 f8]
-    unfold Txn1.claims
-    have hsfeq : (t.sfIns.map (sfInClaim ms2 t.supp ms2.pool)).sum = (t.sfIns.map (sfInClaim ms t.supp ms.pool)).sum := by
-      congr 1; apply List.map_congr_left; intro sfi hm
-      unfold sfInClaim
-      rw [e2p, e1p]
-      have h0 := pSf sfi hm
-      rw [sfElement_agree r2.agree, sfElement_agree r1.agree]
-      · intro hmm
-        obtain ⟨sci, hs, he⟩ := List.mem_map.mp hmm
-        have := hc.disj _ _ _ (kSc sci hs) (he ▸ kSf sfi hm); cases this
-      · intro hmm
-        obtain ⟨q, hq, he⟩ := inF_scOut _ hmm
-        exact h0.not_fresh hF q hq he
-    have hpay := sum_payout_eq ms t.fcs hfcs
-    unfold Txn1.payouts at hbal
-    rw [hb4] at e5P
-    rw [hsfeq] at e3P
-    clear hv hv1 hv2 hv3 hv4 a1 a2 a3 a4 a5 a6 a7 hF F1 F2 F3 F4 F5 F6 F7
-    cur_omega
-  · rw [sfTot_congr f1 f5, e7S, e6S, e5S, e4S]
-    have hvals : (t.sfIns.map (sfInVal ms2 t.supp)).sum = (t.sfIns.map (sfInVal ms t.supp)).sum := by
-      congr 1; apply List.map_congr_left; intro sfi hm
-      unfold sfInVal
-      have h0 := pSf sfi hm
-      rw [sfElement_agree r2.agree, sfElement_agree r1.agree]
-      · intro hmm
-        obtain ⟨sci, hs, he⟩ := List.mem_map.mp hmm
-        have := hc.disj _ _ _ (kSc sci hs) (he ▸ kSf sfi hm); cases this
-      · intro hmm
-        obtain ⟨q, hq, he⟩ := inF_scOut _ hmm
-        exact h0.not_fresh hF q hq he
+  -- lookups of siafund parents are the same before and after the siacoin stages
+  have sfEl2 : ∀ sfi ∈ t.sfIns, ms2.sfElement t.supp sfi.parent = ms.sfElement t.supp sfi.parent := by
+    intro sfi hm
+    have h0 := pSf sfi hm
+    rw [sfElement_agree r2.agree, sfElement_agree r1.agree]
+    · intro hmm
+      obtain ⟨sci, hs, he⟩ := List.mem_map.mp hmm
+      have := hc.disj _ _ _ (kSc sci hs) (he ▸ kSf sfi hm); cases this
+    · intro hmm
+      obtain ⟨q, hq, he⟩ := inF_scOut _ hmm
+      exact h0.not_fresh hF q hq he
+  have hp2 : ms2.pool = ms.pool := by rw [e2p, e1p]
+  have hsfeq : (t.sfIns.map (sfInClaim ms2 t.supp ms2.pool)).sum = (t.sfIns.map (sfInClaim ms t.supp ms.pool)).sum := by
+    congr 1; apply List.map_congr_left; intro sfi hm
+    unfold sfInClaim; rw [hp2, sfEl2 sfi hm]
+  have hvals : (t.sfIns.map (sfInVal ms2 t.supp)).sum = (t.sfIns.map (sfInVal ms t.supp)).sum := by
+    congr 1; apply List.map_congr_left; intro sfi hm
+    unfold sfInVal; rw [sfEl2 sfi hm]
+  have hS4 : sfTot ms4 = sfTot ms := by
     rw [hvals] at e3S
     have hin : (t.sfIns.map (sfInVal ms t.supp)).sum < u64Limit := by
       clear hsfbal hbal; omega
@@ -315,7 +301,51 @@ theorem v1txn_conserves {T} {ms ms' : Mid} {t : Txn1} {pid : Id} {mw : Nat} {R :
     have h3 : (t.sfIns.map (sfInVal ms t.supp)).sum = (t.sfOuts.map (·.2.1)).sum := h1.symm.trans (hsfbal.trans h2)
     clear hsfbal hbal h1 h2 hin hnw hsfb
     omega
+  refine ⟨r7.inv.scalars f1 f2 f3 f4 f5 f6 f7, ?_, f1.trans hb7, ?_, ?_, ?_, ?_⟩
+  · exact F7.agree (agree_scalars f1 f2 f3 f4 f5 f6 f7 (fun _ => False)) (fun _ _ h => h)
+  · rw [Phi_scalars f1 f4 f6 f7 f8]
+    unfold Txn1.claims
+    have hpay := sum_payout_eq ms t.fcs hfcs
+    unfold Txn1.payouts at hbal
+    rw [hb4] at e5P
+    rw [hsfeq] at e3P
+    clear hv hv1 hv2 hv3 hv4 a1 a2 a3 a4 a5 a6 a7 hF F1 F2 F3 F4 F5 F6 F7 e3W e4W
+    cur_omega
+  · rw [sfTot_congr f1 f5, e7S, e6S, e5S, hS4]
   · rw [f8, e7p, e6p, e5p, e4p, e3p, e2p, e1p]
     unfold Cur; omega
+  · intro hcs
+    have s12 : SfSame ms ms2 := (sfSame_scIns1 a1).trans (sfSame_scOuts a2)
+    obtain ⟨q2, c2⟩ := Psi_shift s12 0 (by rw [hp2]; rfl) hcs
+    obtain ⟨c3, q3⟩ := Psi_spend_stage ms.pool hp2 (e3p.trans hp2)
+      (fun w => (t.sfIns.map (sfInW ms2 t.supp w)).sum) e3W c2
+    have hp3 : ms3.pool = ms.pool := e3p.trans hp2
+    obtain ⟨c4, q4⟩ := Psi_create_stage ms.pool hp3 (e4p.trans hp3)
+      (t.sfOuts.map (fun x => (⟨x.1, x.2.1, x.2.2, ms3.pool, none⟩ : SfElem)))
+      (by intro o ho; obtain ⟨x, _, rfl⟩ := List.mem_map.mp ho; exact hp3)
+      (by intro w; rw [e4W w, List.map_map]; rfl) c3
+    obtain ⟨q5, c5⟩ := Psi_shift (sfSame_fcs1 a5) _ e5p c4
+    obtain ⟨q6, c6⟩ := Psi_shift (sfSame_revs1 a6) 0 (by rw [e6p]; rfl) c5
+    obtain ⟨q7, c7⟩ := Psi_shift (sfSame_proofs1 a7) 0 (by rw [e7p]; rfl) c6
+    obtain ⟨q8, c8⟩ := Psi_shift (ms := ms7) (ms' := foundation1 ms7 t) ⟨f5, f1⟩ 0 (by rw [f8]; rfl) c7
+    refine ⟨c8, ?_⟩
+    have hcl : 10000 * t.claims ms ≤ (t.sfIns.map (sfInW ms2 t.supp (psiW ms.pool))).sum := by
+      unfold Txn1.claims
+      rw [← hsfeq, hp2]
+      apply sum_scaled_le
+      intro i _
+      unfold sfInClaim sfInW
+      cases ms2.sfElement t.supp i.parent with
+      | none => exact Nat.le_refl _
+      | some e => exact claimVal_le_psiW _ _ _
+    have hpool : (foundation1 ms7 t).pool - ms.pool = (t.fcs.map (fun x => fileContractTax ms4.base x.2.payout)).sum := by
+      rw [f8, e7p, e6p, e5p, e4p, e3p, e2p, e1p]; unfold Cur; omega
+    rw [hpool, q8, q7, q6, q5, q4]
+    have hS5 : sfTot ms5 = sfTot ms := e5S.trans hS4
+    have hS6 : sfTot ms6 = sfTot ms := e6S.trans hS5
+    rw [hS4, hS5, hS6]
+    simp only [Nat.zero_mul, Nat.add_zero] at q2 ⊢
+    clear hv hv1 hv2 hv3 hv4 a1 a2 a3 a4 a5 a6 a7 hF F1 F2 F3 F4 F5 F6 F7 e3W e4W hbal hsfbal
+    omega
 
 end Sia.Ledger
